@@ -357,6 +357,7 @@ fn gen_lib(st: &mut Station, cfg: &Cfg, r: &mut Rng, built: bool) -> Option<Item
             gen_seed: r.next(),
             p_len_max: cfg.p_len_max,
             p_field_max: cfg.p_field_max,
+            force: Vec::new(),
         };
         let f = if built { built_frame(&mut st.builder, &spec) } else { gen_frame(&mut st.builder, &spec) };
         match f {
@@ -645,9 +646,26 @@ pub fn gen_items(cfg: &Cfg, st: &mut Station, r: &mut Rng) -> Vec<Item> {
         let mut hr = r.fork("bulk");
         for _ in 0..hr.range(1, 2) {
             let n = hr.range(66_000, 80_000) as usize;
-            let bytes = match hr.below(3) {
+            let bytes = match hr.below(5) {
                 0 => vec![0u8; n],
                 1 => hr.bytes(n),
+                2 => {
+                    // thousands of complete-but-dead candidates in one buffer
+                    let mut v = hr.bytes(n);
+                    for x in v.iter_mut() {
+                        if hr.chance(0.25) {
+                            *x = 0xD3;
+                        }
+                    }
+                    v
+                }
+                3 => {
+                    let mut v = Vec::with_capacity(n + 4);
+                    while v.len() < n {
+                        v.extend_from_slice(&[0xD3, 0x00, 0x00, 0x55]);
+                    }
+                    v
+                }
                 _ => {
                     let mut v = Vec::with_capacity(n + 100);
                     while v.len() < n {
